@@ -29,7 +29,7 @@ def gen_table(rng: random.Random, m=None, n=None, k=None, kind=None, scale=None)
     m = m or rng.choice([1, 2, 2, 3])
     n = n or rng.choice([2, 3, 3, 4])
     k = k or rng.choice([1, 1, 2])
-    kind = kind or rng.choice(["dense", "dense", "sparse", "zero_output", "zero_fd", "below_thr"])
+    kind = kind or rng.choice(["dense", "dense", "sparse", "zero_output", "zero_fd", "below_thr", "hetero"])
     scale = scale if scale is not None else 10.0 ** rng.choice([-3, 0, 0, 2, 3, 6, 9, 12])
     N, F = m * n, m * k
     Z = [[rng.uniform(0.5, 10.0) for _ in range(N)] for _ in range(N)]
@@ -62,6 +62,11 @@ def gen_table(rng: random.Random, m=None, n=None, k=None, kind=None, scale=None)
         s = rng.randrange(n)
         for r in range(m):
             Z[r * n + s][j] = 1e-9
+    if kind == "hetero":
+        # industries of very different sizes: supplier shares spread over several orders of magnitude
+        f = [rng.choice([1.0, 1.0, 1e-2, 1e-4]) for _ in range(N)]
+        Z = [[Z[i][j] * f[i] * f[j] ** 0.5 for j in range(N)] for i in range(N)]
+        Y = [[Y[i][c] * f[i] for c in range(F)] for i in range(N)]
     Z = [[v * scale for v in row] for row in Z]
     Y = [[v * scale for v in row] for row in Y]
     # make value added non-negative: raise final demand where column sums exceed output
